@@ -116,3 +116,12 @@ def selftest():
 
 
 CHECKS = {p: router_check for p in ROUTER_PROPS}
+
+
+def _pure(pid, tier):
+    import pure
+    return pure.check(pid, tier)
+
+
+for _p in ("C05", "C06", "C07", "C13", "C14"):
+    CHECKS[_p] = _pure
